@@ -866,7 +866,7 @@ impl Ctx {
             "wall_s": wall,
             "violations": self.violations.len(),
         });
-        let dir = Path::new(VERIF_ROOT).join("evidence");
+        let dir = std::env::var("VERIF_EVIDENCE_DIR").map(PathBuf::from).unwrap_or_else(|_| Path::new(VERIF_ROOT).join("evidence"));
         let _ = std::fs::create_dir_all(&dir);
         let tmp = dir.join(format!("{}.json.tmp", self.property));
         let fin = dir.join(format!("{}.json", self.property));
